@@ -857,10 +857,10 @@ impl World for ThreadsWorld {
     }
     fn runs(&self, ask: Ask) -> u64 {
         match (ask.prop, ask.thorough) {
-            ("C18", false) => 12_000,
-            ("C18", true) => 400_000,
-            (_, false) => 40_000,
-            (_, true) => 2_000_000,
+            ("C18", false) => 60_000,
+            ("C18", true) => 1_000_000,
+            (_, false) => 200_000,
+            (_, true) => 3_000_000,
         }
     }
     fn components(&self) -> (Vec<&'static str>, Vec<&'static str>) {
